@@ -641,3 +641,79 @@ def r8_coefficient_product_width(ck, P, rid):
                 ck.violation(R, f.name, 'coefficient product width', '%s multiplies two filter coefficients in %s (%s): with weights near 1.0 on both axes the product exceeds 31 bits and the pixel contribution wraps (a constant image no longer stays constant)' % (f.name, x.ty, x.loc()), x.loc())
     if n == 0:
         ck.incomplete(R, 'no product of two filter coefficients found in any reader')
+
+
+def r9_degenerate_phases(ck, P):
+    """the table writer stays inside the block and keeps phases normalised for kernels of zero support"""
+    R = ck.rule('C18-R9', 'the per-axis table writer is never called with an empty phase (the computed filter width is clamped to at least 1, so the row-start correction *(p - width) lands in the row it belongs to), and its normalisation never divides by a total that was not tested against zero: a phase that received no weight is given a unit tap instead', floor=3)
+    f = find_writer(P); ck.saw(f)
+    tws = {P.resolve(f, c.callee) for c in f.calls() if c.callee and P.resolve(f, c.callee) is not None and P.resolve(f, c.callee).internal and c.ty == 'void'}
+    tws = {g for g in tws if g is not None and any(x.op == 'fdiv' for x in g.insts())}
+    if len(tws) != 1:
+        ck.incomplete(R, 'per-axis table writer not identified (%s)' % sorted(g.name for g in tws)); return
+    tw = next(iter(tws)); ck.saw(tw)
+    # (a) the width handed to the table writer
+    for c in f.calls(tw.name):
+        src = f.v(f.strip_casts(c.a[0])) if c.a[0][0] == 'v' else None
+        g = P.resolve(f, src.callee) if src is not None and src.op == 'call' and isinstance(src.callee, str) else None
+        where = 'width passed to %s at %s' % (tw.name, c.loc())
+        if g is None:
+            ck.violation(R, f.name, 'width of a phase', 'the width passed to %s is not the result of the width computation the rule knows: it is not shown to be at least 1' % tw.name, c.loc()); continue
+        ok = True
+        for t in g.rets():
+            v = g.v(t.a[0]) if t.a and t.a[0][0] == 'v' else None
+            good = False
+            if v is not None and v.op == 'select':
+                cc = g.v(v.a[0])
+                if cc is not None and cc.op == 'icmp' and any(o[0] == 'c' and int(o[1]) == 1 for o in cc.a) and any(o[0] == 'c' and int(o[1]) >= 1 for o in v.a[1:]):
+                    good = True
+            if v is not None and v.op == 'phi':
+                consts = [int(a[1]) for a in v.a if a[0] == 'c']
+                others = [(a, bb) for a, bb in zip(v.a, v.d['bb']) if a[0] != 'c']
+                if consts and all(k >= 1 for k in consts):
+                    good = True
+                    for a, bb in others:
+                        # the non-constant incoming value must arrive over an edge on which it was tested to be >= 1
+                        fine = False
+                        for tt, s_ in g.guard_edges(bb) | ({(g.blocks[bb].term, v.bb.id)} if g.blocks[bb].term.a else set()):
+                            if not tt.a:
+                                continue
+                            cc, pred, ops = g.cond(tt.a[0])
+                            if cc is None or cc.op != 'icmp' or g.strip_casts(ops[0]) != g.strip_casts(a) or ops[1][0] != 'c':
+                                continue
+                            k = int(ops[1][1]); taken = tt.d['succ'][0] == s_
+                            if (pred == 'slt' and k >= 1 and not taken) or (pred == 'sge' and k >= 1 and taken) or (pred == 'sgt' and k >= 0 and taken) or (pred == 'sle' and k >= 0 and not taken):
+                                fine = True
+                        good = good and fine
+            if t.a and t.a[0][0] == 'c' and int(t.a[0][1]) >= 1:
+                good = True
+            ok = ok and good
+        if ok:
+            ck.ok(R, where, '%s returns at least 1' % g.name)
+        else:
+            ck.violation(R, g.name, 'filter width may be zero', '%s can return 0 (a reconstruction kernel and a sampling kernel of zero support): %s then runs zero-length phases and its row-start correction *(p - width) writes one entry past each phase - past the end of the block for the last one' % (g.name, tw.name), '%s:%d' % (g.unit.name, g.line))
+    # (b) the normalising division
+    n = 0
+    for x in tw.insts():
+        if x.op != 'fdiv' or x.a[0][0] != 'fc' or float(x.a[0][1]) != 65536.0:
+            continue                    # the normalisation is `65536.0 / total`; 1.0 / n_phases and 1.0 / scale have non-zero divisors by construction
+        n += 1
+        d = tw.v(x.a[1]) if x.a[1][0] == 'v' else None
+        good = False
+        if d is not None and d.op == 'phi':
+            raw = [a for a in d.a if a[0] == 'v']
+            cst = [(a, bb) for a, bb in zip(d.a, d.d['bb']) if a[0] == 'fc']
+            if raw and cst and all(float(a[1]) != 0.0 for a, bb in cst):
+                for a, bb in cst:
+                    for tt, s_ in tw.guard_edges(bb) | ({(tw.blocks[bb].term, d.bb.id)} if tw.blocks[bb].term.a else set()):
+                        cc = tw.v(tt.a[0]) if tt.a else None
+                        if cc is not None and cc.op == 'fcmp' and any(o[0] == 'fc' and float(o[1]) == 0.0 for o in cc.a) and any(o in raw for o in cc.a):
+                            zero_side_true = cc.d['p'] in ('oeq', 'ueq')
+                            if (tt.d['succ'][0] == s_) == zero_side_true:
+                                good = True
+        if good:
+            ck.ok(R, '%s: normalising division at %s is preceded by a zero test of the total' % (tw.name, x.loc()))
+        else:
+            ck.violation(R, tw.name, 'normalisation divides by an untested total', '%s divides %s by the sum of a phase without testing that the sum is non-zero: a phase in which an impulse kernel missed every sample position is filled with NaN-derived values and does not sum to 65536' % (tw.name, x.a[0][1]), x.loc())
+    if n == 0:
+        ck.incomplete(R, 'no normalising division found in %s' % tw.name)
